@@ -51,6 +51,7 @@ TypeUtilityParser::TypeUtilityParser(RecursiveParser *parser)
     : parser_(parser) {}
 
 std::string TypeUtilityParser::parseType() {
+    parser_->checkNesting();
     // CRITICAL FIX: Initialize parsed with default values to prevent stale data
     ParsedTypeInfo parsed =
         ParsedTypeInfo(); // Use default constructor explicitly
